@@ -221,7 +221,8 @@ fn case_deep<G: CurveTag>(bytes: &[u8], col: &mut Collector) -> Result<(), Failu
     use crate::program::Sc;
     use crate::scalars::ScalarSpec;
     let mut ch = Choices::new(bytes);
-    let lead = 65_520 + ch.below(30);
+    // the lead stops just short of 2^16 (mostly), 2^17 or 2^18 gates
+    let lead = [65_520usize, 65_520, 65_520, 131_056, 262_128][ch.below(5)] + ch.below(30);
     let cfg = GenCfg { max_ops1: 60, max_closures: 0, max_ops2: 0, max_commits: 2, big_gates: 0, max_terms: 3, wide: false };
     let tail = gen_program(&mut ch, G::CURVE, &cfg);
     let mut ops: Vec<Op> = Vec::with_capacity(lead + tail.ops.len());
@@ -260,7 +261,10 @@ fn case_deep<G: CurveTag>(bytes: &[u8], col: &mut Collector) -> Result<(), Failu
     };
     compare(&prog, &p, &v, "prover", "verifier").map_err(small)?;
     col.class("crosses-gate-index-2^16");
-    if p.iter().any(|c| c.what == "allocate" && c.len_real > 65_536) {
+    if lead > 200_000 {
+        col.class("crosses-gate-index-2^18");
+    }
+    if p.iter().any(|c| c.what == "allocate" && c.len_real > (if lead < 70_000 { 65_536 } else if lead < 140_000 { 131_072 } else { 262_144 })) {
         col.class("single-allocation-beyond-2^16");
         col.nontrivial(crate::runner::fp_of(&(tail.fingerprint(), lead)));
     }
